@@ -6,8 +6,9 @@
                  clear flag.  MaxOps = 0: the full reachable closure (call sequences of every length);
                  MaxOps = k: sequences of at most k calls.
      "progress"  value / max / width / label grids, `filled` chosen freely in FillSet subject to monotonicity
-     "light"     display / backlight / brightness on every wiring
-     "glyph"     slots and bitmaps                                                                        *)
+     "devices"   display / backlight / brightness on every wiring, glyph slots and bitmaps (closure)
+   Marked = TRUE starts from a matrix in which every cell holds a code of its own (one step from there shows
+   exactly which cells a call overwrites); FALSE starts from the blank display.                          *)
 EXTENDS LCDText
 CONSTANTS Geoms, Sides, Facet, MaxOps, Extra, Alphabet, Marked
 
